@@ -228,5 +228,92 @@ def rule_l5(repo):
     return res
 
 
+def rule_l6(repo):
+    """The content of a cached theory may be used only after load_theory_cache has compared the
+    file's modification time for *that* theory: a cache entry read directly may be stale."""
+    res = RuleResult('C12.L6', 'cached theory content is used only through the call that re-validates the file timestamp', floor=3)
+    m = repo.module(BASIC)
+    n_reads = 0
+    for f in m.all_funcs:
+        if f.parent is not None:
+            continue
+        cfg = cfg_of(f.node)
+        from ..flow import flow_of
+        flow = flow_of(f.node)
+        for n in cfg.nodes:
+            for h in cfg.headers(n):
+                for x in ast.walk(h):
+                    if not (isinstance(x, ast.Subscript) and isinstance(x.ctx, ast.Load) and isinstance(x.slice, ast.Constant) and x.slice.value == 'content'):
+                        continue
+                    base = x.value
+                    if isinstance(base, ast.Name) and flow.is_local(base.id) and all(
+                            isinstance(r, ast.Call) and call_name(r) in ('load_json_data', 'json.load') for k, r in flow.defs[base.id]):
+                        continue          # the file that was just read, not a cache entry
+                    n_reads += 1
+                    ok = False
+                    why = ''
+                    defs = []
+                    if isinstance(base, ast.Name) and flow.is_local(base.id):
+                        defs = [cfg.node_for(r) for k, r in flow.defs[base.id] if k == 'value']
+                        vals = [r for k, r in flow.defs[base.id] if k == 'value']
+                    else:
+                        vals = [base]
+                    for v in vals:
+                        if isinstance(v, ast.Call) and call_name(v) == 'load_theory_cache':
+                            ok = True
+                        elif isinstance(v, ast.Subscript) and (path_of(v) or '').startswith('theory_cache'):
+                            # direct read: a load_theory_cache(<same key>) call must dominate it
+                            key = src(v.slice)
+                            loads = [c for c in cfg.nodes if c.kind == 'stmt' and any(
+                                isinstance(y, ast.Call) and call_name(y) == 'load_theory_cache' and y.args and src(y.args[0]) == key
+                                for y in ast.walk(c.ast))]
+                            vn = cfg.node_for(v)
+                            if loads and vn is not None and cfg.path_avoiding(vn, skip_nodes=loads) is None:
+                                ok = True
+                            elif f.name == 'load_theory_cache':
+                                ok = True      # the validating function itself reads its own entry
+                            else:
+                                why = '`%s` is read without a load_theory_cache(%s, ...) before it' % (src(v, 50), key)
+                    res.add('%s :: %s :: content-read(%s)' % (BASIC, f.qualname, src(base, 30)), ok,
+                            'obtained through load_theory_cache' if ok else
+                            (why or 'content read from something other than a validated cache entry') +
+                            ': if the file of that theory changed since it was cached, the old items are used', '%s:%d' % (BASIC, x.lineno))
+    need(n_reads >= 2, 'logic/basic.py: reads of cached content not found')
+    return res
+
+
+def rule_l7(repo):
+    res = RuleResult('C12.L7', 'when a changed theory file is re-read, its list of imports is taken from the file as well', floor=1)
+    f = repo.func(BASIC, 'load_theory_cache')
+    cfg = cfg_of(f.node)
+    from ..flow import flow_of
+    flow = flow_of(f.node)
+    uses = [n for n in cfg.nodes if n.kind == 'stmt' and any(
+        isinstance(c, ast.Call) and call_name(c) == 'get_import_order' and c.args and 'imports' in src(c.args[0]) for c in ast.walk(n.ast))]
+    need(uses, 'load_theory_cache: get_import_order(cache[\'imports\'], ...) not found')
+    # the (possible) refresh: a store cache['imports'] = <derived from load_json_data in this function>, or the
+    # imports handed to get_import_order derive from load_json_data directly
+    def file_data(e):
+        """e is `X['imports']` with X bound only to the result of load_json_data"""
+        return isinstance(e, ast.Subscript) and isinstance(e.slice, ast.Constant) and e.slice.value == 'imports' and \
+            isinstance(e.value, ast.Name) and flow.is_local(e.value.id) and \
+            all(k == 'value' and isinstance(r, ast.Call) and call_name(r) == 'load_json_data' for k, r in flow.defs[e.value.id])
+    stores = [n for n in cfg.stmt_nodes(ast.Assign) if any(
+        isinstance(t, ast.Subscript) and isinstance(t.slice, ast.Constant) and t.slice.value == 'imports' for t in n.ast.targets) and
+        file_data(n.ast.value)]
+    compares = [n for n in cfg.test_nodes() if isinstance(n.ast, ast.Compare) and any(file_data(x) for x in ast.walk(n.ast))]
+    for u in uses:
+        direct = any(file_data(c.args[0]) for c in ast.walk(u.ast) if isinstance(c, ast.Call) and call_name(c) == 'get_import_order')
+        # either the store is on every path, or it is skipped only when a comparison found the lists equal
+        skip = {(t.id, 'false') for t in compares} | {(t.id, 'true') for t in compares if False}
+        ok = direct or (bool(stores) and (cfg.path_avoiding(u, skip_nodes=stores) is None or
+                                          (compares and cfg.path_avoiding(u, skip_nodes=stores, skip_edges=skip) is None)))
+        res.add('%s :: load_theory_cache :: imports-refreshed' % BASIC, ok,
+                'imports come from the file that was just read' if ok else
+                'the imports used to rebuild a changed theory are those recorded when the metadata was first loaded: an import added to '
+                'the file (or a new cycle) is ignored until the process restarts', '%s:%d' % (BASIC, u.lineno))
+    return res
+
+
 def rules(repo):
-    return [rule_l1(repo), rule_l2(repo), rule_l3(repo), rule_l4(repo), rule_l5(repo)]
+    return [rule_l1(repo), rule_l2(repo), rule_l3(repo), rule_l4(repo), rule_l5(repo), rule_l6(repo), rule_l7(repo)]
